@@ -126,6 +126,10 @@ def run_extra(sc):
             return 'add_attacker with an unknown entry point id did not raise'
         except AttackGraphException:
             pass
+        # since fix b507c7f a rejected add_attacker leaves nothing behind; the state "a node is compromised by an
+        # attacker object that is not registered in the graph" is still reachable through the public Attacker.compromise
+        for n in r.sample(nodes, r.randint(1, len(nodes))):
+            bad.compromise(n)
     cp = copy.deepcopy(g)
     f = lambda o: None if o is None else o.id
     for nm in names:
